@@ -64,6 +64,7 @@ func VH_C17a() {
 	n := vsym.Choice("len", vsym.Param("maxlen", 5)+1)
 	name := vsym.String("name", n)
 	err := ValidateBucketName(name)
+	vsym.Observe("accepted", err == nil)
 	want := vhSpecBucketName(name)
 	if err == nil {
 		vsym.Reach("C17a/accepted")
